@@ -36,6 +36,7 @@ func record15(c Case15, info Info15) {
 	st.Case(info.NonTrivial(), h, func() any { return c }, info.Classes()...)
 	st.AddExtra("short_destination_rejections_checked", info.ShortDst)
 	st.AddExtra("sink_kind_and_fill_level_writes_checked", info.SinkWrites)
+	st.AddExtra("marshal_calls_into_destinations_next_to_an_inaccessible_page", info.GuardDst)
 	st.AddExtra("items_checked", int64(info.Items))
 	st.AddExtra("newBuf_results_overwritten_in_place", info.Scribbled)
 }
